@@ -42,6 +42,8 @@ class C03(Pipeline):
         "per-kind preparation through keepers (what the principals themselves did earlier): pending skyway transfers of A and B (AddToOutgoingPool), an outgoing batch (a transfer of V2, BuildOutgoingTXBatch), token factory denoms factory/<A|B>/sa with 5 minted, scheduler jobs job-1/job-2, user smart contracts of A and B, a queued SubmitLogicCall / reference-block message, a second compass contract in deployment (RemoveSmartContractDeployment), light-node licence records / client records / legacy fee grants of A and B written directly (CreateLightNodeClientLicense only serves addresses without an account)",
         "the projection of the state attributed to a principal p is read through the keepers before and after the block: oracle votes and last event nonce of p, batch confirmations / batch gas estimates of p, signatures / evidence / gas estimates / public-access and error data carrying p's validator address on queued messages, keep-alive, external accounts, relayer fee record, staking status; pending transfers, jobs, user contracts (with deployments), factory denoms (admin, bank metadata, supply), erc20 mapping of p's denoms, light-node licence and client record, bank balances, account record; for Gov additionally module params of skyway / paloma / tokenfactory / treasury fees, EVM chain infos, last compass contract, deployment records, bridge mappings of non-factory denoms, last observed skyway nonce, the replenish marker and the light-node granter/funders. The signer's own account record (sequence) is not counted as a change. An empty block changes none of these (monitor Setup.Quiescent on every history)",
         "the whole-multistore diff recorded as `suspect` (changed keys of the Paloma module stores whose key or value contains A's / B's address bytes or bech32 strings) is a discovery aid, not a verdict",
+        "two-message transactions (action Deliver2): one really signed transaction of A carrying an honest message of A (creator = named = A) and a message in B's name (creator = named = B, Metadata.Signers = {A}), in both orders, the second position ranging over one kind per module (quick) / every plain kind (thorough), under the same fee-grant relations; the world holds the objects of both kinds",
+        "ownership that was handed over (kinds ...Handed): the factory denoms factory/<A>/sh and factory/<B>/sh were created (5 minted) by A resp. B, who then gave the admin role to the other principal with MsgChangeAdmin (set-up through the tokenfactory msg server), and the new admin minted 5 more; the named principal of these kinds is the CURRENT admin, whose denom name carries the other principal. Factory denoms (admin, bank metadata, supply) and both bridge mapping records of a denom (denom -> erc20, erc20 -> denom) are attributed to the denom's current admin. No other Paloma object has a transferable owner (scheduler jobs, user smart contracts, light-node licences, pool transfers and validator records have no hand-over message)",
         "nested execution paths that bypass the ante chain by design (x/authz MsgExec, x/gov proposals submitted by others, wasm-dispatched messages) authorise through their own grant / vote / contract rules and are not enumerated, except governance execution itself",
         "MsgSubmitBadSignatureEvidence carrying the named validator's own external-chain signature over a batch that never existed jails that validator: treated like a batch confirmation (the named validator's own signature over the exact item) - the monitors allow this write; the variant signed with the creator's own key and the legacy Sender field naming somebody else must leave the named principal untouched",
     ]
@@ -62,7 +64,7 @@ class C03(Pipeline):
         ]
 
     def nontrivial(self, evs):
-        return any(e["act"] == "Deliver" and e.get("cls") not in ("build", "block") for e in evs)
+        return any(e["act"] in ("Deliver", "Deliver2") and e.get("cls") not in ("build", "block") for e in evs)
 
     def drive(self, histories):
         t0 = time.time()
@@ -100,6 +102,11 @@ class C03(Pipeline):
         for a in ("Grant", "GrantExp", "Revoke"):
             if not any(e["act"] == a and e["res"] == "ok" for e in events):
                 raise vk.Broken("vacuous drive: %s never succeeded" % a)
+        d2 = [e for e in events if e["act"] == "Deliver2"]
+        d2ok, d2fail = sum(1 for e in d2 if e["res"] == "ok"), sum(1 for e in d2 if e["res"] == "fail")
+        self._two = {"transactions": len(d2), "ok": d2ok, "fail": d2fail, "second_kinds": sorted({e["args"]["k2"] for e in d2})}
+        if d2ok < 5 or len(self._two["second_kinds"]) < 8:
+            raise vk.Broken("vacuous drive: two-message transactions: %s" % self._two)
         dl = [e for e in events if e["act"] == "Deliver"]
         granted = sum(1 for e in dl if e["res"] == "ok" and e["args"]["s"] != e["args"]["c"] and e["args"]["s"] != 3)
         viagov = sum(1 for e in dl if e.get("via") == "gov" and e["res"] == "ok")
@@ -108,6 +115,8 @@ class C03(Pipeline):
         # rejections missing altogether would make the evidence vacuous, but they are exactly what a broken authorisation
         # layer looks like: reported as BROKEN only if the monitors found nothing (see execute)
         self._soft = ["kind %s was never rejected" % k for k, c in sorted(per.items()) if c["fail"] == 0]
+        if d2fail == 0:
+            self._soft.append("no two-message transaction was ever rejected")
         by_decorator = sum(1 for c in per.values() if c["ante"] > 0)
         if by_decorator < 40:
             self._soft.append("only %d kinds were ever rejected by the decorator" % by_decorator)
@@ -115,7 +124,8 @@ class C03(Pipeline):
     def extra_coverage(self, tier):
         ev = getattr(self, "_events", [])
         reg = next((e for e in ev if e["act"] == "Registry"), None)
-        out = {"per_kind_results": getattr(self, "_per_kind", {}), "coverage_gaps": getattr(self, "_gaps", [])}
+        out = {"per_kind_results": getattr(self, "_per_kind", {}), "coverage_gaps": getattr(self, "_gaps", []),
+               "two_message_transactions": getattr(self, "_two", {})}
         if reg:
             urls = {t["url"] for t in reg["table"]}
             out["message_types"] = {"registered_by_paloma_modules": len(reg["reg"]), "served_by_router": len(reg["routed"]),
@@ -270,6 +280,26 @@ class C03(Pipeline):
             evs = copy.deepcopy(byh[h])
             evs[1]["reg"].append("/palomachain.paloma.skyway.MsgBrandNew")
             jobs["unlisted_message_type_noticed"] = (evs, lambda v: any(n == "Setup.KindTableComplete" for n, _, _ in v.monfail))
+        # 6. a two-message transaction without any grant reported as successful -> GrantNeeded
+        h6 = next(((hh, kk) for hh, ee in byh.items() for kk, e in enumerate(ee)
+                   if e["act"] == "Deliver2" and e["g"] == {"ab": 0, "ba": 0} and e.get("cls") not in ("build", "block")), None)
+        if h6 is None:
+            skipped.append("forged_two_message_success_noticed")
+        else:
+            evs = copy.deepcopy(byh[h6[0]])
+            k = h6[1]
+            evs[k]["res"], evs[k]["cs"], evs[k]["code"], evs[k]["cls"] = "ok", "", 0, "ok"
+            jobs["forged_two_message_success_noticed"] = (evs, lambda v: any(n == "C03.GrantNeeded" for n, _, _ in v.monfail))
+        # 7. the bridge mapping of a handed-over denom altered in the current admin's projection -> NoForeignWrite
+        h7 = next(((hh, kk) for hh, ee in byh.items() for kk, e in enumerate(ee)
+                   if e["act"] == "Deliver" and e["args"]["kind"] == "SkSetERC20ToTokenDenomHanded" and e["args"]["s"] == 1
+                   and e["args"]["c"] == 1 and e["args"]["n"] == 2 and e["res"] == "fail"), None)
+        if h7 is None:
+            skipped.append("altered_handed_over_mapping_noticed")
+        else:
+            evs = copy.deepcopy(byh[h7[0]])
+            evs[h7[1]]["obs"]["post"]["B"][17] += 9      # component erc20 of the current admin B
+            jobs["altered_handed_over_mapping_noticed"] = (evs, lambda v: any(n == "C03.NoForeignWrite" for n, _, _ in v.monfail))
         if len(jobs) < 3:
             return {"ok": False, "why": "samples missing in the recorded trace: %s" % skipped}
         t0 = time.time()
